@@ -504,10 +504,12 @@ class Session:
     def extract_server_buf(self):
         """Extracts packets from session which together contain complete TLS_Records"""
         self.server_counter += 1
-        self.server_packet_buffer.sort(key=lambda x: x.seq)
+        # sequence numbers wrap at 2^32: order the segments by their signed distance to the first buffered one
+        base = self.server_packet_buffer[0].seq
+        self.server_packet_buffer.sort(key=lambda x: (x.seq - base + 0x80000000) & 0xFFFFFFFF)
 
         for i in range(0, len(self.server_packet_buffer) - 1):
-            if self.server_packet_buffer[i].seq + len(self.server_packet_buffer[i].tls_data) != \
+            if (self.server_packet_buffer[i].seq + len(self.server_packet_buffer[i].tls_data)) & 0xFFFFFFFF != \
                     self.server_packet_buffer[i + 1].seq:
                 # need more packets (missing packets)
                 return
@@ -557,10 +559,12 @@ class Session:
     def extract_client_buf(self):
         """Extracts packets from session which together contain complete TLS_Records"""
         self.client_counter += 1
-        self.client_packet_buffer.sort(key=lambda x: x.seq)
+        # sequence numbers wrap at 2^32: order the segments by their signed distance to the first buffered one
+        base = self.client_packet_buffer[0].seq
+        self.client_packet_buffer.sort(key=lambda x: (x.seq - base + 0x80000000) & 0xFFFFFFFF)
 
         for i in range(0, len(self.client_packet_buffer) - 1):
-            if self.client_packet_buffer[i].seq + len(self.client_packet_buffer[i].tls_data) != \
+            if (self.client_packet_buffer[i].seq + len(self.client_packet_buffer[i].tls_data)) & 0xFFFFFFFF != \
                     self.client_packet_buffer[i + 1].seq:
                 # need more packets (missing packets)
                 return
